@@ -234,8 +234,7 @@ var panicsSeen int
 var reportedLeaks = map[string]bool{}
 
 func connGoroutines() map[string]string {
-	buf := make([]byte, 4<<20)
-	buf = buf[:runtime.Stack(buf, true)]
+	buf := stackBuf[:runtime.Stack(stackBuf, true)]
 	out := map[string]string{}
 	for _, g := range strings.Split(string(buf), "\n\n") {
 		if strings.Contains(g, "imapserver.(*Conn).") {
@@ -652,6 +651,8 @@ func body(w *hx.W) {
 	}
 	w.MetricMax("max_nesting_depth_fed", int64(depths[len(depths)-1]))
 }
+
+var stackBuf = make([]byte, 4<<20)
 
 func main() {
 	hx.Main(hx.Spec{
